@@ -17,4 +17,41 @@ theorem C12_order : validationsPrecedeEffects Generated.prepareRunCalls = true :
 /-- the order in which the model's `startSteps` performs its steps is the order of the corresponding calls in the source -/
 theorem C12_order_model : isSubseq modelSourceOrder Generated.prepareRunCalls = true := by decide
 
+/-! #### round 2: the head of `run_map` and the constructors -/
+
+/-- `run_map`: `prepare_run` (everything `startMap` models) is the first call that is not plumbing, and the generations are only
+    run (`_run_and_process_generation`) after it: no user function before the validation -/
+theorem C12_order_run_map : prepareGuardsRun Generated.runMapCalls = true := by decide
+
+/-- the same for `run_map_async` (the coroutine that runs the generations is defined and started after `prepare_run`) -/
+theorem C12_order_run_map_async : prepareGuardsRun Generated.runMapAsyncCalls = true := by decide
+
+/-- `Pipeline.__init__` adds every function through `add` -/
+theorem C12_ctor_pipeline_init : ctorValidates pipelineInitRequired Generated.pipelineInitCalls = true := by decide
+
+/-- `Pipeline.add` calls `validate_unique_output_names`, appends, then validates the pipeline — in this order (the order of
+    `PF.Validate.addAll`: `clashes`, then `pipelineValidate (acc ++ [f])`) -/
+theorem C12_ctor_pipeline_add :
+    (ctorValidates pipelineAddRequired Generated.pipelineAddCalls && isSubseq pipelineAddRequired Generated.pipelineAddCalls) = true := by
+  decide
+
+/-- `Pipeline._validate` makes the calls `PF.Validate.pipelineValidate` models, in the model's order (defaults, then MapSpecs) -/
+theorem C12_ctor_pipeline_validate :
+    (ctorValidates pipelineValidateRequired Generated.pipelineValidateCalls &&
+     isSubseq ["validate_consistent_defaults", "self._validate_mapspec"] Generated.pipelineValidateCalls) = true := by decide
+
+/-- `Pipeline._validate_mapspec`: output-name order (`raise`), `validate_consistent_axes`, then `_autogen_mapspec_axes` (which
+    computes `topological_generations`: the cycle check) — the order of `pipelineValidate`'s last three tests -/
+theorem C12_ctor_pipeline_validate_mapspec :
+    (ctorValidates pipelineValidateMapspecRequired Generated.pipelineValidateMapspecCalls &&
+     isSubseq pipelineValidateMapspecRequired Generated.pipelineValidateMapspecCalls) = true := by decide
+
+/-- `PipeFunc.__init__` parses the MapSpec (`MapSpec.__post_init__`) and calls `_validate` -/
+theorem C12_ctor_pipefunc_init : ctorValidates pipeFuncInitRequired Generated.pipeFuncInitCalls = true := by decide
+
+/-- `PipeFunc._validate` = `_validate_names`, then `_validate_mapspec` (the order of `PF.Validate.pipeFuncValidate`) -/
+theorem C12_ctor_pipefunc_validate :
+    (ctorValidates pipeFuncValidateRequired Generated.pipeFuncValidateCalls &&
+     isSubseq pipeFuncValidateRequired Generated.pipeFuncValidateCalls) = true := by decide
+
 end PF.C12
